@@ -222,7 +222,7 @@ class Gen(object):
             elif kind == 'line':
                 g.primitives.append(g.createLineSet(numpy.array(corners(2 * r.randint(0 if not self.o['schema'] else 1, 4)), dtype=numpy.int32), il, mat))
             elif kind == 'polylist':
-                vc = [r.randint(3, 5) for _ in range(r.randint(1, 3))]
+                vc = [r.choice([3, 4, 5, 3, 4, 2, 1]) if not self.o['schema'] else r.randint(3, 5) for _ in range(r.randint(1, 3))]
                 g.primitives.append(g.createPolylist(numpy.array(corners(sum(vc)), dtype=numpy.int32), numpy.array(vc, dtype=numpy.int32), il, mat))
             else:
                 polys = [numpy.array(corners(r.randint(3, 5)), dtype=numpy.int32) for _ in range(r.randint(1, 3))]
